@@ -147,7 +147,28 @@ SIG_BASELINE_FILE = os.path.join(HERE, 'signature_baseline.json')
 def unannotated_closures(text):
     """number of closures without a contract in a function text (Verus knows nothing about what they return)"""
     code = '\n'.join(l.split('//')[0] for l in text.split('\n'))
-    return sum(1 for m in CLOSURE_RE.finditer(code) if not m.group(2))
+    return sum(1 for m in CLOSURE_RE.finditer(code) if not m.group(2)) + loops_without_invariant(code)
+
+
+LOOP_RE = re.compile(r'(?<![\w.])(?:for\s+[^;{}]*?\s+in\s|while\s|loop\s*\{)')
+
+
+def loops_without_invariant(code):
+    """number of loops that carry no invariant (Verus can prove nothing THROUGH such a loop: a postcondition that fails behind one says nothing about
+    the code).  Counted together with contract-less closures: more of them than on the pinned tree taints the function"""
+    n = 0
+    for m in LOOP_RE.finditer(code):
+        head = code[m.start():]
+        brace = head.find('{')
+        if brace < 0:
+            continue
+        # Verus loop contracts sit between the loop head and its body (`while c invariant .. {`) -- or, for the rendered select-loops, inside an attribute
+        hdr = head[:brace] if not head.startswith('loop') else ''
+        after = head[brace:brace + 400]
+        if 'invariant' in hdr or re.match(r'\{\s*(?:/\*.*?\*/\s*)?invariant\b', after, re.S):
+            continue
+        n += 1
+    return n
 
 
 def closure_taint(unit_name, ctx):
@@ -831,7 +852,7 @@ def run_unit(name, tier, repo=None, cache=None, probes=True):
             tainted, counts = closure_taint(unit.NAME, ctx)
             for o in r['obligations']:
                 if o.get('fn_key') in tainted or any(o['id'] == k or o['id'].startswith(k + '::') for k in tainted):
-                    o['tainted'] = 'the function now contains a closure without contract that the pinned tree does not have'
+                    o['tainted'] = 'the function now contains a closure without contract, or a loop without invariant, that the pinned tree does not have'
             r['closure_counts'] = counts
             # a function whose SIGNATURE differs from the pinned one has had responsibilities moved in or out of it: its
             # function-level contract may no longer be what the property needs, so a failure needs a failing input to count
